@@ -131,7 +131,7 @@ async fn restart_and_check(w: &World, x: usize, img: &Image, root: &Path, k: usi
         let mut res = Ok(());
         for (origin, m) in &model {
             if let Err((clause, msg)) = sim::check_advertised_after_restart(&st, w.actor(*origin), m, *origin == x) {
-                res = Err(Fail::new(&format!("after-restart:{clause}"), format!("image after op #{} ({}): restarted node {x} about node {origin}: {msg}", img.after_op, img.kind)));
+                res = Err(Fail::new(&format!("after-restart:{clause}"), format!("image after op #{} ({}): restarted node {x} about node {origin}: {msg} [model: last_seq declarations {:?}, undetermined {:?}, partial {:?}]", img.after_op, img.kind, m.last_seqs, m.undetermined, m.partial.keys().collect::<Vec<_>>())));
                 break;
             }
         }
